@@ -135,19 +135,69 @@ def canon(p):
     return ("ok", L, R, mom, real)
 
 
+LAST_OBJ = [None]            # the real result object of the last successful run_impl (kept alive by run())
+OPERAND_CHANGES = []         # operands found modified by a constructor call
+
+
+def _snap(o):
+    """canonical value of an operand (to check that a call leaves it unchanged)"""
+    from pyuncertainnumber.pba.intervals.number import Interval
+    if isinstance(o, Interval):
+        return ("I", float(o.lo), float(o.hi))
+    if isinstance(o, (list, tuple)):
+        return (type(o).__name__, tuple(_snap(x) for x in o))
+    if isinstance(o, np.ndarray):
+        return ("arr", tuple(o.ravel().tolist()))
+    if isinstance(o, dict):
+        return ("dict", tuple(sorted((k, _snap(v)) for k, v in o.items())))
+    if isinstance(o, set):
+        return ("set", tuple(sorted(o)))
+    return (type(o).__name__, o)
+
+
+DIST_NAMES = {"normal": ["gaussian", "normal", "norm"]}
+
+
 def run_impl(c):
     pba = _pba()
+    LAST_OBJ[0] = None
     try:
-        if c["kind"] == "par":
-            f = getattr(pba, c["fam"])
-            return canon(f(*[build(s) for s in c["pos"]], **{n: build(s) for n, s in c["kw"]}))
-        if c["kind"] == "uni":
-            return canon(pba.uniform(build(c["pos"][0]), build(c["pos"][1])))
-        if c["kind"] == "ebl":
-            return canon(pba.exponential_by_lambda(build(c["pos"][0])))
+        via = c.get("via")
+        if via:
+            # the less common entry point: a precise Distribution(family, params) turned into a p-box
+            vals = [build(s) for s in c["pos"]]
+            params = {"tuple": tuple, "list": list}[via["container"]](vals) if via["container"] != "scalar" else vals[0]
+            before = _snap(params)
+            d = pba.Distribution(via["name"], params)
+            if via["entry"] == "to_pbox":
+                obj = d.to_pbox()
+            elif via["entry"] == "convert":
+                from pyuncertainnumber.pba.operation import convert
+                obj = convert(d)
+            elif via["entry"] == "add0":
+                obj = d + 0.0
+            else:
+                obj = -(-d)
+            if _snap(params) != before:
+                OPERAND_CHANGES.append((case_json(c), "Distribution parameters"))
+        else:
+            args = [build(s) for s in c["pos"]]
+            kwargs = {n: build(s) for n, s in c["kw"]}
+            before = (_snap(args), _snap(kwargs))
+            if c["kind"] == "par":
+                obj = getattr(pba, c["fam"])(*args, **kwargs)
+            elif c["kind"] == "uni":
+                obj = pba.uniform(args[0], args[1])
+            elif c["kind"] == "ebl":
+                obj = pba.exponential_by_lambda(args[0])
+            else:
+                raise ValueError(c["kind"])
+            if (_snap(args), _snap(kwargs)) != before:
+                OPERAND_CHANGES.append((case_json(c), "constructor arguments"))
+        LAST_OBJ[0] = obj
+        return canon(obj)
     except BaseException as e:  # noqa
         return ("err", err_kind(e))
-    raise ValueError(c["kind"])
 
 
 def run_impl_real_moments(c):
@@ -290,6 +340,8 @@ def agrees(c, impl, model):
     for a, m in zip(impl[1] + impl[2], model[1] + model[2]):
         if not math.isfinite(a) or not eq(a, m):
             return False
+    if c.get("nomom"):
+        return True
     derived = impl[3] is None or bool(impl[4])       # the constructor derived the moments itself (stub or LP)
     if model[3] is None:
         return derived                                # model: mean = var = None were handed over
@@ -525,6 +577,92 @@ def gen_cases(ctx):
     for mu, sg in [((0, 0), (3, 3)), ((0, 1), (3, 4)), ((0, 0), (3.5, 3.5))]:
         cases.append({"kind": "par", "fam": "lognormal", "pos": [["L", list(mu)], ["L", list(sg)]], "kw": [],
                       "stream": "derived-moments", "mom": True})
+    # ---- round 3 streams -------------------------------------------------------------------------------------
+    num = lambda x: ["N", x, "int" if isinstance(x, int) else "float"]
+    # wide boxes: the reported mean / variance intervals must contain the corner members' moments (real moment code
+    # whenever the constructor derives the moments itself)
+    wide = [("normal", [["L", [4, 20]], num(1)], []), ("exponential", [], [["scale", ["L", [1, 8]]]]),
+            ("gamma", [["L", [1, 12]], num(0), num(1)], []), ("logistic", [["L", [-10, 40]], ["L", [1, 2]]], []),
+            ("laplace", [["T", [0, 30]], num(1.5)], []), ("gumbel_r", [["I", -5, 25], num(1)], []),
+            ("rayleigh", [["L", [0, 0]], ["L", [1, 9]]], []), ("rayleigh", [], [["scale", ["L", [1, 9]]]]),
+            ("lognormal", [["L", [0, 4]], num(0.5)], []), ("exponential", [["L", [0, 50]], ["L", [1, 2]]], []),
+            ("normal", [["L", [-1000, 1000]], ["L", [0.5, 1]]], []), ("exponential", [num(0), ["L", [0.5, 40]]], [])]
+    for fam, pos, kw in wide:
+        cases.append({"kind": "par", "fam": fam, "pos": pos, "kw": kw, "stream": "wide-box", "mom": True})
+    for _ in range(ctx.scale(10, 150)):
+        fam = rng.choice([f for f in fams if f != "lognormal"])
+        order = FAMS[fam]["order"]
+        sc = 10 ** rng.uniform(-2, 2)
+        iv = {"loc": (0.0, 0.0), "scale": (sc, sc * rng.uniform(1, 1.5)), "a": (1.0, 1.0 + rng.choice([0, 1, 10]))}
+        if rng.random() < 0.6:
+            c0 = rng.uniform(-5, 5) * sc
+            iv["loc"] = (c0, c0 + sc * rng.uniform(8, 1000))
+        else:
+            iv["scale"] = (sc, sc * rng.uniform(8, 60))
+        cases.append({"kind": "par", "fam": fam, "pos": [form(rng, *iv[n]) for n in order], "kw": [], "stream": "wide-box", "mom": True})
+    # thin but not degenerate boxes (relative widths 1e-9 .. 1e-5, tiny magnitudes)
+    for fam in fams:
+        order = FAMS[fam]["order"]
+        for rel, mag in [(1e-9, 2.0), (1e-6, 3.0), (1e-5, 0.75), (3.0, 2e-9)]:
+            iv = {}
+            for n in order:
+                base = mag * (1.5 if n in ("scale", "sigma", "a") else 1.0)
+                if n == "sigma":
+                    base = min(base, 1.0)
+                iv[n] = (base, base * (1 + rel))
+            cases.append({"kind": "par", "fam": fam, "pos": [["L", list(iv[n])] for n in order], "kw": [], "stream": "thin"})
+    cases.append({"kind": "uni", "pos": [["L", [2e-9, 8e-9]], ["L", [1.0, 1.0 + 1e-9]]], "kw": [], "stream": "thin"})
+    cases.append({"kind": "uni", "pos": [["L", [1.0, 1.0 + 1e-9]], ["L", [2.0, 2.0 + 1e-6]]], "kw": [], "stream": "thin"})
+    cases.append({"kind": "ebl", "pos": [["L", [2.0, 2.0 + 2e-9]]], "kw": [], "stream": "thin"})
+    cases.append({"kind": "ebl", "pos": [["L", [2e-9, 8e-9]]], "kw": [], "stream": "thin"})
+    # extreme constants as parameters
+    kB = 1.380649e-23
+    ext = [("normal", [num(1e-20), num(1)]), ("normal", [["L", [0, 1]], num(1e-20)]), ("normal", [num(1e18), ["L", [1e15, 2e15]]]),
+           ("exponential", [num(kB), ["L", [1, 2]]]), ("exponential", [num(0), ["L", [2.0 ** -60, 2.0 ** -59]]]),
+           ("gamma", [["L", [1, 2]], num(0), num(1e18)]), ("logistic", [num(1e18), num(1e15)]), ("laplace", [["L", [-1e-20, 1e-20]], num(1)]),
+           ("gumbel_r", [num(0), ["L", [1e-20, 3e-20]]]), ("rayleigh", [["L", [0, 1e-20]], num(1e18)]), ("lognormal", [["L", [-40, -39]], num(1e-20)]),
+           ("lognormal", [num(kB), ["L", [1, 2]]])]
+    for fam, pos in ext:
+        cases.append({"kind": "par", "fam": fam, "pos": pos, "kw": [], "stream": "extreme"})
+    cases.append({"kind": "uni", "pos": [num(0), num(1e18)], "kw": [], "stream": "extreme"})
+    cases.append({"kind": "uni", "pos": [num(1e-20), ["L", [1, 2]]], "kw": [], "stream": "extreme"})
+    cases.append({"kind": "ebl", "pos": [["L", [1e-20, 2e-20]]], "kw": [], "stream": "extreme"})
+    cases.append({"kind": "ebl", "pos": [["L", [1e15, 1e18]]], "kw": [], "stream": "extreme"})
+    # the Distribution(...) entry point: precise distributions given as tuple / list / scalar parameters
+    dist_fams = [("normal", n) for n in ("gaussian", "normal", "norm")] + [(f, f) for f in fams if f != "normal"]
+    pt = lambda: rng.choice([float(rng.randint(-5, 9)), rng.randint(-5, 9), round(rng.uniform(-5, 9), 3)])
+    pp = lambda: rng.choice([float(rng.randint(1, 6)), rng.randint(1, 6), round(rng.uniform(0.2, 4), 3)])
+    entries = ["to_pbox", "convert", "add0", "negneg"]
+    k = 0
+    for rep in range(ctx.scale(1, 8)):
+        for fam, name in dist_fams:
+            order = FAMS[fam]["order"]
+            full = [num(pp() if n in FAMS[fam]["positive"] else pt()) for n in order]
+            variants = [full]
+            if "exact" not in FAMS[fam] and FAMS[fam]["req"] <= 1:
+                variants.append(full[:1])
+            for pos in variants:
+                for cont in (["tuple", "list"] + (["scalar"] if len(pos) == 1 else [])):
+                    for entry in (entries if rep == 0 else [entries[k % 4]]):
+                        k += 1
+                        cases.append({"kind": "par", "fam": fam, "pos": pos, "kw": [], "stream": "dist-entry",
+                                      "via": {"name": name, "container": cont, "entry": entry}, "nomom": entry in ("add0", "negneg")})
+        for cont in ("tuple", "list"):
+            a0 = pt()
+            for entry in (entries if rep == 0 else ["to_pbox"]):
+                cases.append({"kind": "uni", "pos": [num(a0), num(a0 + pp())], "kw": [], "stream": "dist-entry",
+                              "via": {"name": "uniform", "container": cont, "entry": entry}, "nomom": entry in ("add0", "negneg")})
+    # sequences: the same numbers bound differently in consecutive calls (positional / keyword / other keyword names)
+    seq = [("exponential", [["L", [1, 2]]], []), ("exponential", [], [["scale", ["L", [1, 2]]]]), ("exponential", [], [["loc", ["L", [1, 2]]]]),
+           ("rayleigh", [num(3)], []), ("rayleigh", [], [["scale", num(3)]]), ("rayleigh", [], [["loc", num(3)]]),
+           ("rayleigh", [], [["loc", num(2)], ["scale", num(5)]]), ("rayleigh", [], [["scale", num(2)], ["loc", num(5)]]),
+           ("exponential", [["L", [2, 5]], ["L", [3, 4]]], []), ("exponential", [], [["scale", ["L", [2, 5]]], ["loc", ["L", [3, 4]]]]),
+           ("exponential", [["L", [2, 5]]], [["scale", ["L", [3, 4]]]]), ("exponential", [["L", [3, 4]]], [["scale", ["L", [2, 5]]]]),
+           ("normal", [["L", [1, 2]]], []), ("normal", [num(0), ["L", [1, 2]]], []), ("gamma", [["L", [1, 2]]], []),
+           ("gamma", [num(3), ["L", [1, 2]]], []), ("gamma", [num(3), num(0), ["L", [1, 2]]], [])]
+    for rnd in range(2):
+        for fam, pos, kw in (seq if rnd == 0 else list(reversed(seq))):
+            cases.append({"kind": "par", "fam": fam, "pos": json.loads(json.dumps(pos)), "kw": json.loads(json.dumps(kw)), "stream": "sequence"})
     # keyword parameters (exponential, rayleigh): witnesses of KF-C09-kw-drops-positional
     for fam in ("exponential", "rayleigh"):
         cases.append({"kind": "par", "fam": fam, "pos": [["L", [1, 2]]], "kw": [["scale", ["L", [1, 2]]]], "stream": "kw"})
@@ -596,9 +734,33 @@ def gen_cases(ctx):
 
 
 # ---- run -------------------------------------------------------------------------------------------------
+def family_fit(c):
+    """harness' own evaluation of the code's guard: do the family's corner moments fit the discretised support
+    [min ppf(0.001), max ppf(0.999)] (means inside, largest variance <= width^2/4)?  None when not applicable."""
+    try:
+        b = box_of(c)
+        if c["kind"] != "par" or b is None:
+            return None
+        k = len(c["pos"])
+        names = [n for n, _, _ in b]
+        lo, hi, ms, vs = math.inf, -math.inf, [], []
+        for cor in itertools.product(*[(l, h) for _, l, h in b]):
+            pos, kw = cor[:k], dict(zip(names[k:], cor[k:]))
+            row = sp_ppf(c["fam"], pos, kw)
+            m, v = sp_stats(c["fam"], pos, kw)
+            lo, hi = min(lo, float(row[0])), max(hi, float(row[-1]))
+            ms.append(m)
+            vs.append(v)
+        return bool(finite(ms + vs) and lo <= min(ms) and max(ms) <= hi and max(vs) <= (hi - lo) ** 2 / 4)
+    except Exception:
+        return None
+
+
 def features(c, impl, check):
     return {"kind": c["kind"], "fam": c.get("fam", c["kind"]), "check": check, "npos": len(c["pos"]), "nkw": len(c["kw"]),
             "kwnames": "+".join(n for n, _ in c["kw"]), "stream": c["stream"],
+            "entry": (c["via"]["entry"] + ":" + c["via"]["container"]) if c.get("via") else "constructor",
+            "family_moments_fit": family_fit(c) if check == "moments" else None,
             "moments_source": "none" if impl[0] == "err" else ("derived" if (impl[3] is None or impl[4]) else "handed-over"),
             "symptom": ("raises:" + impl[1]) if impl[0] == "err" else "value"}
 
@@ -614,7 +776,7 @@ def _js(t):
 
 
 def case_json(c):
-    return {k: c[k] for k in ("kind", "fam", "pos", "kw", "stream") if k in c}
+    return {k: c[k] for k in ("kind", "fam", "pos", "kw", "stream", "via", "nomom") if k in c}
 
 
 def run(ctx: core.Check, cases=None):
@@ -622,7 +784,10 @@ def run(ctx: core.Check, cases=None):
                 "x 8 families and over the number of positional parameters; keyword parameters (exponential, rayleigh); random "
                 "boxes (location over 7 decades, widths 0 .. 1e3, positive parameters over 6 decades); point parameters; malformed "
                 "parameters and non-positive scales (error kind only); bespoke uniform (separated / touching / overlapping / inverted "
-                "boxes) and exponential_by_lambda. A case is non-trivial when it is a distinct (constructor, parameter forms, values) "
+                "boxes) and exponential_by_lambda; wide boxes (moments judged with the library's real moment code when derived); thin "
+                "non-degenerate boxes (relative width 1e-9..1e-5, magnitudes 1e-9); extreme constants (1e-20, 2^-60, k_B, 1e18); the "
+                "Distribution(family, tuple|list|scalar).to_pbox()/convert()/+0/-(-d) entry point; sequences binding the same numbers "
+                "positionally and by keyword in consecutive calls; results kept alive and re-read, cases evaluated twice. A case is non-trivial when it is a distinct (constructor, parameter forms, values) "
                 "description; malformed cases count as trivial.")
     ctx.assumptions = ["scipy ppf/stats values at the corners are computed by the harness with its own family table and sent to the model",
                        "monotonicity of the gamma quantile in its shape parameter is an assumption of the theorem, validated numerically by the oracle",
@@ -640,34 +805,84 @@ def run(ctx: core.Check, cases=None):
         cases = gen_cases(ctx)
     n_rand = ctx.scale(10, 40)
     real_budget = [ctx.scale(12, 60)]
+    forced_budget = [ctx.scale(25, 100)]
+    keep = []            # (real result object, canonical value when produced, case) — kept alive and re-read later
+    again = []           # (case, canonical value) — evaluated a second time at the end, after unrelated calls
+
+    def same(a, b, moments=True):
+        if a[0] != b[0]:
+            return False
+        if a[0] == "err":
+            return a[1] == b[1]
+        if a[1] != b[1] or a[2] != b[2]:
+            return False
+        return (not moments) or a[3] is None or b[3] is None or a[4] or b[4] or a[3] == b[3]
+
+    def reverify(final=False):
+        for obj, can, c in keep:
+            now = canon(obj)
+            if not same(can, now, moments=not can[4]):
+                ctx.fail(features(c, can, "aliasing"), dict(case_json(c), impl=_js(can), reread=_js(now)),
+                         "a p-box returned earlier changed its value after later calls (result shares state with the library)")
+        if not final:
+            del keep[:-40]
+
     CH = 250
+    done = 0
     for s0 in range(0, len(cases), CH):
         chunk = cases[s0:s0 + CH]
         replies = core.model_batch("C09", [wire(c) for c in chunk])
         for c, rep in zip(chunk, replies):
             stream = c["stream"]
+            model = parse_model(rep)
             impl = run_impl(c)
-            if impl[0] == "ok" and impl[3] is None and (c.get("mom") or (c["kind"] == "par" and real_budget[0] > 0)):
+            obj = LAST_OBJ[0]
+            if impl[0] == "ok" and impl[3] is None and not c.get("nomom"):
                 # the constructor derived the moments itself: use the library's own moment code (LP, ~1 s) instead of
-                # the stub so that the oracle judges what a user sees; budgeted for the random streams
-                if not c.get("mom"):
-                    real_budget[0] -= 1
-                impl = run_impl_real_moments(c)
+                # the stub so that the oracle judges what a user sees.  Always for the fixed witnesses; within a budget for
+                # random cases; and whenever the model says the family's moments should have been handed over.
+                unexpected = model[0] == "ok" and model[3] is not None and forced_budget[0] > 0
+                if c.get("mom") or unexpected or (c["kind"] == "par" and real_budget[0] > 0):
+                    if unexpected:
+                        forced_budget[0] -= 1
+                    elif not c.get("mom"):
+                        real_budget[0] -= 1
+                    impl = run_impl_real_moments(c)
+                    obj = LAST_OBJ[0]
             ctx.count(json.dumps(case_json(c), sort_keys=True, default=str), "malformed" not in stream, stream)
             ctx.bump("fam:" + c.get("fam", c["kind"]))
             ctx.bump("impl:" + (impl[1] if impl[0] == "err" else "value"))
             if impl[0] == "ok":
-                ctx.bump("moments:" + ("derived-by-constructor(LP,checked)" if impl[4] else
+                ctx.bump("moments:" + ("recomputed-by-arithmetic(not-compared)" if c.get("nomom") else
+                                       "derived-by-constructor(LP,checked)" if impl[4] else
                                        "derived-by-constructor(stubbed,unchecked)" if impl[3] is None else "handed-over(checked)"))
-            model = parse_model(rep)
             if agrees(c, impl, model):
                 ctx.tie_ok()
             else:
                 ctx.tie_bad(stream, case_json(c), _js(impl), _js(model) if model[0] != "bad" else model)
-            for check, what in oracle(ctx, c, impl, ctx.rng, n_rand):
+            oimpl = impl if not c.get("nomom") or impl[0] == "err" else (impl[0], impl[1], impl[2], None, False)
+            for check, what in oracle(ctx, c, oimpl, ctx.rng, n_rand):
                 ctx.fail(features(c, impl, check), dict(case_json(c), impl=_js(impl)), what)
-            if stream in ("random-box", "kw", "uniform-random", "ebl-random") and len(ctx.samples) < 6 and impl[0] == "ok":
+            if stream in ("random-box", "kw", "uniform-random", "ebl-random", "dist-entry") and len(ctx.samples) < 6 and impl[0] == "ok":
                 ctx.sample({"case": case_json(c), "impl": _js(impl), "model": rep[:160] + " …"})
+            # state carried between calls: keep real results alive, re-read them later; evaluate some cases twice
+            if impl[0] == "ok" and obj is not None:
+                keep.append((obj, impl, c))
+            if "malformed" not in stream and (done % 9 == 0 or stream in ("sequence", "kw", "dist-entry")) and len(again) < ctx.scale(150, 600):
+                again.append((c, impl))
+            done += 1
+            if done % 100 == 0:
+                reverify()
+    reverify(final=True)
+    for c, first in again:
+        second = run_impl(c)
+        ctx.bump("evaluated-twice")
+        if not same(first, second):
+            ctx.fail(features(c, second, "repeat"), dict(case_json(c), first=_js(first), second=_js(second)),
+                     "the same call gives a different result when made again after unrelated calls")
+    for cj, what in OPERAND_CHANGES:
+        ctx.fail({"kind": cj["kind"], "fam": cj.get("fam", cj["kind"]), "check": "operand-modified"}, cj, f"the call modified its {what}")
+    del OPERAND_CHANGES[:]
 
 
 def replay(obj):
